@@ -678,3 +678,85 @@ def run(res, facts, tier):
     r2_protocol(res, facts)
     _run_r3457(res, facts, tier)
     r6_arena(res, facts)
+
+
+# ----------------------------------------------------------------------------------------------- R8: integer division by a run-time divisor
+# divisors that are non-zero by an invariant established elsewhere, one reason each (function, divisor text)
+DIVISOR_INVARIANTS = {
+    ('XalanDeque::operator[]', 'm_blockSize'): 'block size is fixed by the constructor (callers pass a non-zero literal; default 10) and never written afterwards',
+    ('XalanDeque::XalanDeque', 'theRHS.m_blockSize'): 'copy of an existing deque: same invariant as m_blockSize',
+    ('XalanMap::doHash', 'modulus'): 'callers pass m_buckets.size() after the map has created its buckets (doCreateEntry / find return early on an empty bucket vector)',
+    ('XalanDOMStringHashTable::find', 'm_bucketCount'): 'bucket count is a constructor argument (eDefaultBucketCount = 101 or an explicit non-zero count)',
+    ('XalanDOMStringHashTable::insert', 'm_bucketCount'): 'bucket count is a constructor argument (eDefaultBucketCount = 101 or an explicit non-zero count)',
+    ('XalanQName::hash', '(getNamespace().hash() + 1)'): 'hash value plus one',
+    ('ElemNumber::traditionalAlphaCount', 'multiplier[i]'): 'entries of the numbering resource bundle (powers of ten), never zero',
+    ('ElemNumber::traditionalAlphaCount', 'groups[k]'): 'entries of the numbering resource bundle (group sizes), never zero',
+    ('ElemNumber::traditionalAlphaCount', 'groups[count]'): 'entries of the numbering resource bundle (group sizes), never zero',
+    ('ElemNumber::int2alphaCount', 'radix'): 'length of the alphabet table passed by the caller (s_alphaCountTableSize / resource bundle), non-zero',
+}
+
+
+def r8_division(res, facts):
+    from .c19 import strip_targs
+    r = res.rule('C03-R8', 'every integer division or remainder by a run-time divisor is dominated by a test that the divisor is not zero, or the divisor is a reviewed '
+                 'structural invariant; a divisor that input can make zero kills the process with SIGFPE', floor=10)
+    fired = set(); fx = set(); seen = set()
+    cands = {}
+    for needle in ('"op":"/"', '"op":"%"', '"op":"/="', '"op":"%="'):
+        for a in fn_candidates(facts, needle):
+            cands[a['usr']] = a
+    for a in cands.values():
+        isfx = common.is_fixture(a)
+        divs = [x for x in walk(a['body']) if x['k'] == 'Bin' and x['op'] in ('/', '%', '/=', '%=') and not str(x.get('ty', '')).startswith(('double', 'float', 'long double'))
+                and strip_casts(x['rhs']) is not None and 'cv' not in strip_casts(x['rhs'])]
+        if not divs:
+            continue
+        if isfx:
+            fx.add(a['name'])
+        fn = strip_targs(short(a['name']))
+        cfg = None; must = None
+        for x in divs:
+            d = strip_casts(x['rhs'])
+            if any(y['k'] == 'Cast' and y.get('ck') == 'FloatingToIntegral' for y in walk(x['rhs'])):
+                continue   # converted doubles: C03-R4
+            dtxt = pp(d)
+            key = (fn, dtxt)
+            if key in seen:
+                continue
+            seen.add(key)
+            site = '%s: division by %s' % (fn, dtxt)
+            if cfg is None:
+                cfg = CFG(a); must = common.must_conds(cfg)
+            node = cfg_node_of(cfg, x)
+            conds = must.get(node.id, []) if node else []
+            guarded = False
+            for atom, br in conds:
+                core, eff = common.norm_atom(atom, br)
+                if core is None or core.get('k') != 'Bin':
+                    continue
+                l, rr = strip_casts(core['lhs']), strip_casts(core['rhs'])
+                for v, c in ((l, rr), (rr, l)):
+                    if v is not None and pp(v) == dtxt and c is not None and 'cv' in c:
+                        op = core['op'] if v is l else {'<': '>', '>': '<', '<=': '>=', '>=': '<=', '==': '==', '!=': '!='}[core['op']]
+                        cv = c['cv']
+                        if (op == '==' and cv == 0 and not eff) or (op == '!=' and cv == 0 and eff) or (op == '>' and cv >= 0 and eff) or (op == '>=' and cv > 0 and eff) \
+                                or (op == '<=' and cv == 0 and not eff and str(v.get('ty', '')).startswith('unsigned')) or (op == '<' and cv == 1 and not eff):
+                            guarded = True
+            if guarded:
+                r.ok(site, 'dominated by a non-zero test')
+            elif key in DIVISOR_INVARIANTS and not isfx:
+                r.ok(site, 'invariant: ' + DIVISOR_INVARIANTS[key])
+            elif isfx:
+                fired.add(a['name'])
+            else:
+                r.violation(site, 'integer %s by %s, which no dominating condition shows to be non-zero: a zero divisor raises SIGFPE instead of an error' % (x['op'], dtxt), common.file_line(a, x))
+    fixture_summary(r, 'R8', fired, fx)
+    return r
+
+
+_run_c03_17 = run
+
+
+def run(res, facts, tier):
+    _run_c03_17(res, facts, tier)
+    r8_division(res, facts)
